@@ -1,5 +1,6 @@
 /- driver for collator lines (C07, C08) -/
 import Driver.Json
+import CollectionModel.Generated.Facts
 import CollectionModel.Model.Collator
 open Lean CM CM.Coll
 
@@ -87,7 +88,7 @@ def collLine (j : Json) : String :=
     ("raa", ofRank (rank max f d0 a a) == raa), ("rbb", ofRank (rank max f d0 b b) == rbb),
     ("cab", ro || ofCmp (cmp max f d0 a b) == cab), ("cba", ro || ofCmp (cmp max f d0 b a) == cba),
     ("caa", ofCmp (cmp max f d0 a a) == caa),
-    ("rab2", ofRank (rank max f 0 a b) == rab2 || max != 16), ("cab2", ro || ofCmp (cmp max f 0 a b) == cab2 || max != 16)]
+    ("rab2", ofRank (rank max f 0 a b) == rab2 || max != Generated.collatorDefaultMaximum), ("cab2", ro || ofCmp (cmp max f 0 a b) == cab2 || max != Generated.collatorDefaultMaximum)]
   let depthsOk := ["rab", "rba", "raa", "rbb", "cab", "cba", "caa"].all (fun k => nat (fld j k) "d1" == d0)
   let noCrash := [rab, rba, raa, rbb, cab, cba, caa].all (fun r => r != .hang && r != .otherPanic)
   let allRet := [rab, rba, raa, rbb, cab, cba, caa].all isRet
@@ -98,7 +99,7 @@ def collLine (j : Json) : String :=
       ("refl", !isRet raa || raa == .rank .eq), ("refl", !isRet rbb || rbb == .rank .eq),
       ("mirror", !(isRet rab && isRet rba) || (match rab, rba with | .rank x, .rank y => y == x.flip | _, _ => true)),
       ("undef-first", !(a matches .undef) || (b matches .undef) || rab == .rank .lt || !isRet rab),
-      ("independent-of-copies-and-history", max != 16 || !(isRet rab && isRet rab2) || rab == rab2)]
+      ("independent-of-copies-and-history", max != Generated.collatorDefaultMaximum || !(isRet rab && isRet rab2) || rab == rab2)]
     else firstFail [
       ("no-hang-or-crash", noCrash),
       ("depth-restored", depthsOk),
@@ -107,7 +108,7 @@ def collLine (j : Json) : String :=
       ("agrees-with-rank", ro || !(isRet cab && isRet rab) || (cab == .eq true) == (rab == .rank .eq)),
       ("rebuilt-copy-equal", !bool j "copy" || !isRet cab || cab == .eq true),
       ("single-mutation-unequal", !bool j "mut" || !isRet cab || cab == .eq false),
-      ("independent-of-copies-and-history", max != 16 || !(isRet cab && isRet cab2) || cab == cab2)]
+      ("independent-of-copies-and-history", max != Generated.collatorDefaultMaximum || !(isRet cab && isRet cab2) || cab == cab2)]
   let _ := allRet
   verdict corr.isNone spec.isNone s!"{pid}/{spec.getD "ok"}/{tag}"
     s!"corr-break:{corr.getD "-"} model rab={iresStr mrab}"
